@@ -14,7 +14,8 @@ VERIF = os.path.dirname(os.path.dirname(os.path.abspath(__file__)))
 REPO = os.environ.get("VERIF_REPO", "/repo")
 WORK = os.path.join(VERIF, "work")
 REPLAYS = os.path.join(WORK, "replays")
-EVIDENCE = os.path.join(VERIF, "evidence")
+# runs against a scratch tree (self-tests with VERIF_REPO=...) must not overwrite the evidence of /repo
+EVIDENCE = os.path.join(VERIF, "evidence") if REPO == "/repo" else os.path.join(WORK, "evidence_scratch")
 FINDINGS = os.path.join(VERIF, "known_findings.json")
 CASES = os.path.join(VERIF, "cases")
 
